@@ -87,9 +87,13 @@ def fork(ctx, cfg, fs):
                         if r.kind == 'agg' and depth < 4:
                             for f in r.extra['fields']:
                                 out |= eval_sources(f, r.site[0], r.site[1], depth + 1)
-                        elif r.kind == 'call':
+                        elif r.kind == 'call' and r.call.is_(r'Parser<.*>>?::eval$|::eval$'):
                             for f_ in provenance(b, r.call.args[0], r.call.bb, 'term'):
                                 if f_.path: out.add(f_.path[0])
+                        elif r.kind == 'call' and depth < 4:
+                            # a helper reshaping the Result (e.g. into (Option<T>, Option<Error>)): follow what it was given
+                            for a_ in r.call.args:
+                                out |= eval_sources(a_, r.call.bb, 'term', depth + 1)
                     return out
                 def first_unwrap(t):
                     seen = set(); st = [t]
@@ -212,41 +216,34 @@ def pick_winner(ctx, cfg, fs):
     rev = [n for n in names if re.search(r'Iterator>?::(rev|rfind|rposition|last|max|min|nth|skip|step_by)', n) or 'DoubleEnded' in n]
     fwd = any(re.search(r'Iterator>?::(zip|enumerate)', n) for n in names)
     ctx.ob('W.pick_winner', 'pick_winner:forward-scan', fwd and not rev, 'pick_winner walks both ledgers front to back (zip+enumerate, no reversing/skipping adaptor): %s' % (rev or 'ok'), where=b.where(), cfg=cfg)
-    # the xor test and what is reported
-    xor = None
-    for sw in switches(b):
-        if sw.kind == 'bool':
-            for r in sw.roots:
-                if r.kind == 'bin' and r.extra['op'] in ('BitXor', 'Ne'):
-                    a = provenance(b, r.extra['a'], r.site[0], r.site[1], through=None); c_ = provenance(b, r.extra['b'], r.site[0], r.site[1], through=None)
-                    if all(x.kind == 'call' and x.call.is_(r'ItemState::parsed$') for x in a + c_) and a and c_:
-                        xor = sw
-    ok = xor is not None
-    ctx.ob('W.pick_winner', 'pick_winner:first-mismatch-test', ok, 'the loop stops at the first index where exactly one side parsed (me.parsed() ^ other.parsed()): %s' % ok, where=b.where(), cfg=cfg)
+    # the first-mismatch test (in the loop body or in the predicate closure of find/position) and what is reported
+    fam = fs.family(b)
+    xor_found = False
+    for x in fam:
+        for i, k, st in x.stmts():
+            if st['k'] == 'assign' and st['rv']['k'] == 'bin' and st['rv']['op'] in ('BitXor', 'Ne'):
+                a = provenance(x, st['rv']['a'], i, k, through=None); c_ = provenance(x, st['rv']['b'], i, k, through=None)
+                if a and c_ and all(q.kind == 'call' and q.call.is_(r'ItemState::parsed$') for q in a + c_):
+                    xor_found = True
+    ctx.ob('W.pick_winner', 'pick_winner:first-mismatch-test', xor_found, 'pick_winner looks for the first index where exactly one side parsed (me.parsed() ^ other.parsed()): %s' % xor_found, where=b.where(), cfg=cfg)
+    # zip(self.item_state, other.item_state): the first component of each pair is this side
+    zips = [c for c in b.calls() if c.is_(r'Iterator>?::zip')]
+    order_ok = False
+    for c in zips:
+        a0 = provenance(b, c.args[0], c.bb, 'term', through=DEFAULT_THROUGH + [r'slice::<impl \[T\]>::iter$']); a1 = provenance(b, c.args[1], c.bb, 'term', through=DEFAULT_THROUGH + [r'slice::<impl \[T\]>::iter$'])
+        order_ok = all(q.kind == 'param' and q.what == 'self' for q in a0) and all(q.kind == 'param' and q.what == 'other' for q in a1) and bool(a0) and bool(a1)
     good = False
-    if xor is not None:
-        t = xor.target(True)
-        for k, st in enumerate(b.blocks[t]['stmts']) if t is not None else []:
-            pass
-        # the value returned on that edge: (me.parsed(), Some(ix))
-        seen = set(); stack = [t]
-        while stack:
-            x = stack.pop()
-            if x in seen: continue
-            seen.add(x)
-            for k, st in enumerate(b.blocks[x]['stmts']):
-                if st['k'] == 'assign' and st['lhs'] == [0, []] and st['rv']['k'] == 'agg' and st['rv']['agg'] == 'tuple':
-                    f0 = provenance(b, st['rv']['fields'][0], x, k, through=None)
-                    if f0 and all(r.kind == 'call' and r.call.is_(r'ItemState::parsed$') for r in f0):
-                        who = set()
-                        for r in f0:
-                            for q in provenance(b, r.call.args[0], r.call.bb, 'term'):
-                                who.add(q.path[-1] if q.path else q.what)
-                        # field 0 of the zipped pair is `me`
-                        good = who == {'0'}
-            if not good:
-                stack += b.succ(x)
-    ctx.ob('W.pick_winner', 'pick_winner:reports-own-side', good, 'on a mismatch pick_winner returns whether THIS side parsed the item (so the side that consumed the leftmost item wins): %s' % good, where=b.where(), cfg=cfg)
+    for i, k, st in b.stmts():
+        if st['k'] == 'assign' and st['lhs'] == [0, []] and st['rv']['k'] == 'agg' and st['rv']['agg'] == 'tuple':
+            f0 = provenance(b, st['rv']['fields'][0], i, k, through=None)
+            if f0 and all(r.kind == 'call' and r.call.is_(r'ItemState::parsed$') for r in f0):
+                who = set()
+                for r in f0:
+                    for q in provenance(b, r.call.args[0], r.call.bb, 'term'):
+                        who.add(tuple(q.path[-2:]))
+                # pair = (index, (mine, theirs)): the state reported is component .1.0
+                good = who == {('1', '0')}
+    ctx.ob('W.pick_winner', 'pick_winner:reports-own-side', good and order_ok, 'on a mismatch pick_winner returns whether THIS side (first component of zip(self, other)) parsed the item, so the side that consumed the leftmost item wins: %s' % (good and order_ok), where=b.where(), cfg=cfg)
 
 def state_fields_read(fs, body):
     out = set()
